@@ -29,7 +29,19 @@ type nested struct {
 	I interface{}
 }
 
+// comparable composites whose Go == differs from deep equality (pointer fields compare by address under ==) or panics when hashed
+// (an interface field holding a slice or map)
+type ptrField struct {
+	P *int
+	N int
+}
+type ifaceField struct {
+	I interface{}
+	N int8
+}
+
 var types = []reflect.Type{
+	reflect.TypeOf(ptrField{}), reflect.TypeOf(ifaceField{}), reflect.TypeOf([2]*int{}), reflect.TypeOf([1]interface{}{}),
 	reflect.TypeOf(int(0)), reflect.TypeOf(int8(0)), reflect.TypeOf(int16(0)), reflect.TypeOf(int32(0)), reflect.TypeOf(int64(0)),
 	reflect.TypeOf(uint(0)), reflect.TypeOf(uint8(0)), reflect.TypeOf(uint16(0)), reflect.TypeOf(uint32(0)), reflect.TypeOf(uint64(0)),
 	reflect.TypeOf(uintptr(0)), reflect.TypeOf(float32(0)), reflect.TypeOf(float64(0)), reflect.TypeOf(""), reflect.TypeOf(true),
